@@ -320,6 +320,60 @@ def _sat_conj0(conj):
                     c0, m = T.to_lin(T.sub(T.I(len(c1) - 1), T.mk_len(x)))
                     if not _fm_sat(ineqs + [(dict(m), c0)]):       # len(x) <= len(c1) - 1 impossible
                         return False
+    # bytewise view of constant prefixes: x starts with c  <=>  len(x) >= len(c) and x[i] = c[i] for i < len(c)
+    if any(a[0] == 'call' and a[1] == 'starts_with' for a in pos | negs):
+        byte_eq, byte_ne = {}, {}
+        for a in conj:
+            neg = a[0] == 'not'
+            b = a[1] if neg else a
+            if b[0] != 'eq0':
+                continue
+            c0, m = T.to_lin(b[1])
+            if len(m) == 1:
+                (at, coef), = m.items()
+                if at[0] == 'at' and at[2][0] == 'int' and coef in (1, -1) and (-c0) % coef == 0:
+                    val = (-c0) // coef
+                    if neg:
+                        byte_ne.setdefault((at[1], at[2][1]), set()).add(val)
+                    else:
+                        byte_eq[(at[1], at[2][1])] = val
+
+        def len_at_least(x, k):        # entailed: len(x) >= k
+            c0, m = T.to_lin(T.sub(T.I(k - 1), T.mk_len(x)))
+            return not _fm_sat(ineqs + [(dict(m), c0)])
+
+        def len_at_most(x, k):         # entailed: len(x) <= k
+            c0, m = T.to_lin(T.sub(T.mk_len(x), T.I(k + 1)))
+            return not _fm_sat(ineqs + [(dict(m), c0)])
+        if True:
+            for a in pos:
+                if not (byte_eq or byte_ne):
+                    break
+                if a[0] == 'call' and a[1] == 'starts_with':
+                    x, c = a[2]
+                    if c[0] == 'bytes' and x[0] != 'bytes':             # x starts with the constant c
+                        for i, cb in enumerate(c[1]):
+                            if byte_eq.get((x, i), cb) != cb or cb in byte_ne.get((x, i), ()):
+                                return False
+                    elif x[0] == 'bytes' and c[0] != 'bytes':           # the constant x starts with c (c is short)
+                        for (y, i), val in byte_eq.items():
+                            if y == c and (i >= len(x[1]) or x[1][i] != val) and len_at_least(c, i + 1):
+                                return False
+                        for (y, i), vals in byte_ne.items():
+                            if y == c and i < len(x[1]) and x[1][i] in vals and len_at_least(c, i + 1):
+                                return False
+            for a in negs:
+                if a[0] == 'call' and a[1] == 'starts_with':
+                    x, c = a[2]
+                    if c[0] == 'bytes' and x[0] != 'bytes':
+                        if all(byte_eq.get((x, i)) == cb for i, cb in enumerate(c[1])) and len_at_least(x, len(c[1])):
+                            return False
+                    elif x[0] == 'bytes' and c[0] != 'bytes':
+                        for k in range(len(x[1]) + 1):
+                            if len_at_most(c, k):
+                                if len_at_least(c, k) and all(byte_eq.get((c, i)) == x[1][i] for i in range(k)):
+                                    return False
+                                break
     # disequalities: unsat if the remaining constraints force lin == 0
     for l in diseq:
         c0, m = T.to_lin(l)
